@@ -13,7 +13,18 @@ WORDS = ["alpha", "beta", "gamma", "delta", "omega", "kappa", "sigma", "theta", 
          "{x}", "{", "}", "{0}", "{{", "%s", "%(a)s", "{x!r:>3}", "\\d+"]
 UNKNOWN_LANGUAGES = ["xx-nolang", "{de}", "{0}", "{", "%s", "zz"]
 BAD_TAG_WORDS = ["oops", "{slow}", "{", "}x", "{0}", "{{", "%s", "no-at-sign"]
-TAG_STEMS = ["t", "wip", "slow.x", "a-b", "issue=", "Ü", "{x}", "{", "}", "%s"]
+TAG_STEMS = ["t", "wip", "slow.x", "a-b", "issue=", "Ü", "{x}", "{", "}", "%s", "issue#", "a#b", "x#"]
+EOLS = [u"\n", u"\n", u"\n", u"\n", u"\r\n", u"\r\n", u"\r"]          # line terminators: LF, CR-LF (Windows), lone CR
+
+
+def prefix_languages():
+    """languages in which a step keyword alias is a prefix of one of the structural keywords (hi: 'पर ' / 'परिदृश्य')"""
+    out = []
+    for name, k in sorted(languages().items()):
+        steps = [a.rstrip().lower() for t in STEP_TYPES for a in k[t] if not a.startswith("*")]
+        if any(s.lower().startswith(a) for key in STRUCT.values() for s in k[key] for a in steps):
+            out.append(name)
+    return out
 
 
 def languages():
